@@ -290,17 +290,22 @@ def kx_fam(bits, fam=None):
     return "_aes_keyexp_%s_%s" % (bits, fam if fam in ("sse", "avx") else "sse")
 
 
+# what the Python oracle computed for the scenarios of this run; dynamic_c14 cross-checks every
+# entry against the extracted Coq spec (oracle_crosscheck)
+ORACLE = {"keys": {}, "h": {}, "tweaks": {}}
+
+
 def add_key_secrets(s, key, label, enc=True, dec=True):
     s.secret(key if len(key) != 24 else key[:16], label + ".raw")
-    if len(key) == 32:
-        pass
     if len(key) == 24:
         s.secret(key[8:24], label + ".raw8")
+    e, d = aes.expand_enc(key), aes.expand_dec(key)
+    ORACLE["keys"][bytes(key)] = (e, d)
     if enc:
-        for i, r in enumerate(aes.expand_enc(key)):
+        for i, r in enumerate(e):
             s.secret(r, "%s.enc%d" % (label, i))
     if dec:
-        for i, r in enumerate(aes.expand_dec(key)):
+        for i, r in enumerate(d):
             s.secret(r, "%s.dec%d" % (label, i))
 
 
@@ -354,7 +359,9 @@ def gcm_keydata(s, D, J, bits, fam, precomp=True):
 def gcm_secrets(s, key, kd):
     L = layout()
     add_key_secrets(s, key, "K", dec=True)
-    s.secret(aes.encrypt_block(aes.expand_enc(key), bytes(16)), "H")
+    h = aes.encrypt_block(aes.expand_enc(key), bytes(16))
+    ORACLE["h"][bytes(key)] = h
+    s.secret(h, "H")
     s.dynsecret(kd, L["struct isal_gcm_key_data.shifted_hkey_1"], L["struct isal_gcm_key_data.size"] - L["struct isal_gcm_key_data.shifted_hkey_1"], "Hpow")
 
 
@@ -661,9 +668,12 @@ def g_xts(p, D, J, mode, tier="quick"):
             add_key_secrets(s, k1, "K1", enc=(dr == "enc"), dec=(dr == "dec"))
             add_key_secrets(s, k2, "K2", dec=False)
             t = aes.encrypt_block(aes.expand_enc(k2), tw)
-            for j in range(n // 16 + 10):
+            chain = []
+            for j in range(m // 16 + 10):      # m: the data actually present (len_over_max is rejected)
                 s.secret(t, "EK2tweak.a%d" % j)
+                chain.append(t)
                 t = aes.xts_mul_alpha(t)
+            ORACLE["tweaks"][(bytes(k2), bytes(tw))] = chain
         a = [(k2o, 0), (k1o, 0), (two, 0), n, (src, 0), (dst, 0)]
         if cls.startswith("null_"):
             a[["null_k2", "null_k1", "null_tweak", "", "null_in", "null_out"].index(cls)] = None
@@ -1389,12 +1399,75 @@ def leak_where(item):
     return "stack", lab
 
 
+def oracle_crosscheck(rep):
+    """Tighten the trusted base of the scan: every key-derived secret the Python oracle
+    (lib/tramp_aesref.py) produced for this run — encryption schedule, equivalent-inverse-cipher
+    decryption schedule, H = E(K,0^128), E(K2,tweak) and its multiples by alpha — must equal what
+    the EXTRACTED Coq spec computes (Spec/AES.v key_expansion / dec_schedule / cipher, Spec/XTS.v
+    xts_tweak0 / xts_mul_alpha through Extract/Aesmodes.v and ocaml/secrets_driver.ml;
+    Spec/GCM.v gcm_hash_key_rk through Extract/Gcm.v and ocaml/secretsh_driver.ml).  Any
+    mismatch, missing line or build failure is a broken correspondence, never a pass."""
+    name = "c14_secrets_oracle_vs_coq_spec"
+    def broken(what, detail):
+        rep.violation("%s: %s" % (name, what), dict({"correspondence": name, "what": what}, **detail), {"kind": name}, no_input=True)
+    try:
+        ok, log = vlib.coq_make(["Extract/Aesmodes.vo", "Extract/Gcm.vo"], timeout=1200)
+        if not ok:
+            raise RuntimeError("extraction build failed: %s" % vlib.first_coq_error(log))
+        exe_a = vlib.ocaml_driver("secrets", "Aesmodes")
+        exe_h = vlib.ocaml_driver("secretsh", "Gcm")
+    except Exception as e:      # noqa: a check that cannot run proves nothing
+        broken("the extracted Coq spec could not be built", {"error": str(e)[-1500:]})
+        rep.notes["secrets_oracle_crosschecked_keys"] = 0
+        return 0
+    keys = sorted(ORACLE["keys"].items())
+    hs = sorted(ORACLE["h"].items())
+    tws = sorted(ORACLE["tweaks"].items())
+    lines = ["K k%d %s" % (i, k.hex()) for i, (k, _) in enumerate(keys)]
+    lines += ["T t%d %s %s %d" % (i, k2.hex(), tw.hex(), len(ch) - 1) for i, ((k2, tw), ch) in enumerate(tws)]
+    out_a, _ = vlib.run_driver(exe_a, "\n".join(lines), timeout=900) if lines else ({}, "")
+    out_h, _ = vlib.run_driver(exe_h, "\n".join("H h%d %s" % (i, k.hex()) for i, (k, _) in enumerate(hs)), timeout=900) if hs else ({}, "")
+    nbad = 0
+    sizes = {}
+    for i, (k, (e, d)) in enumerate(keys):
+        sizes[8 * len(k)] = sizes.get(8 * len(k), 0) + 1
+        t = out_a.get("k%d" % i, "").split()
+        got = dict(zip(t[1::2], t[2::2]))
+        exp = {"enc": b"".join(e).hex(), "dec": b"".join(d).hex()}
+        for f in ("enc", "dec"):
+            if got.get(f) != exp[f] and nbad < 5:
+                nbad += 1
+                broken("%s schedule of a %d-bit key differs" % (f, 8 * len(k)), {"key": k.hex(), "python_oracle": exp[f], "coq_spec": got.get(f, "<no output: %s>" % " ".join(t)[:200])})
+    for i, (k, h) in enumerate(hs):
+        t = out_h.get("h%d" % i, "").split()
+        if (len(t) != 2 or t[1] != h.hex()) and nbad < 5:
+            nbad += 1
+            broken("H = E(K,0^128) differs", {"key": k.hex(), "python_oracle": h.hex(), "coq_spec": " ".join(t)[:200]})
+    for i, ((k2, tw), ch) in enumerate(tws):
+        t = out_a.get("t%d" % i, "").split()[1:]
+        if t != [c.hex() for c in ch] and nbad < 5:
+            nbad += 1
+            j = next((j for j, (a, b) in enumerate(zip(t, ch)) if a != b.hex()), min(len(t), len(ch)))
+            broken("E(K2,tweak)*alpha^%d differs" % j, {"k2": k2.hex(), "tweak": tw.hex(), "python_oracle": ch[j].hex() if j < len(ch) else None,
+                                                       "coq_spec": t[j] if j < len(t) else "<missing>"})
+    rep.notes["secrets_oracle_crosschecked_keys"] = len(keys)
+    rep.notes["secrets_oracle_crosscheck"] = {
+        "correspondence": name, "keys_by_size_bits": dict(sorted(sizes.items())), "hash_subkeys": len(hs),
+        "xts_tweak_chains": len(tws), "xts_tweak_blocks": sum(len(c) for _, c in tws), "mismatches": nbad,
+        "coq_side": "extracted Spec/AES.v key_expansion, dec_schedule, cipher; Spec/XTS.v xts_tweak0, xts_mul_alpha (Extract/Aesmodes.v, "
+                    "ocaml/secrets_driver.ml); Spec/GCM.v gcm_hash_key_rk (Extract/Gcm.v, ocaml/secretsh_driver.ml)"}
+    rep.obligation(name, nbad == 0, "%d keys, %d hash subkeys, %d tweak chains compared with the extracted Coq spec" % (len(keys), len(hs), len(tws)))
+    return len(keys)
+
+
 def dynamic_c14(rep, tier, only=None):
     text, _ = archive_syms("plain")
     typed, untyped, notcalled = _inventory(text)
     exe = driver("plain")
     seed = vlib.seed()
     scripts = []
+    for v in ORACLE.values():
+        v.clear()
     for sym, p in typed.items():
         if p["kind"] not in AES_KINDS or (only and not re.search(only, sym)):
             continue
@@ -1403,7 +1476,11 @@ def dynamic_c14(rep, tier, only=None):
                 if rnd:
                     s.sid += ".r%d" % rnd
                 scripts.append(s)
-    res = run_scripts(exe, scripts)
+    import concurrent.futures as cf
+    with cf.ThreadPoolExecutor(1) as ex:      # the Coq-spec cross-check runs beside the native run
+        fut = ex.submit(oracle_crosscheck, rep)
+        res = run_scripts(exe, scripts)
+        fut.result()
     found = {}
     per_sym = {}
     for s in scripts:
@@ -1436,7 +1513,8 @@ def dynamic_c14(rep, tier, only=None):
                                 "leak_sites": [{"symbol": k[0], "where": k[1], "first_class": v["class"], "classes_hit": v["n_classes"], "found": v["found"][:4]}
                                                for k, v in sorted(found.items())],
                                 "secrets_oracle": "lib/tramp_aesref.py (plain FIPS-197 reference in Python, self-checked against FIPS-197 "
-                                                  "appendix vectors on import): raw key blocks, all round keys of the encryption and the "
+                                                  "appendix vectors on import, and cross-checked on every key of every run against the extracted "
+                                                  "Coq spec: see secrets_oracle_crosscheck): raw key blocks, all round keys of the encryption and the "
                                                   "equivalent-inverse-cipher decryption schedule, H = E(K,0), E(K2,tweak)*alpha^j; GHASH key "
                                                   "powers are taken as every 16-byte block of the key_data the call produced",
                                 "scan": "every 16-byte window of zmm0-31 (4 lanes each) and every byte offset of the private stack below the call's rsp (508 KiB)"}
